@@ -1084,6 +1084,12 @@ func (c *x04Client) checkUp(s *x04Snap, wait time.Duration) error {
 	}
 	if n == 0 {
 		if ok {
+			if s.Closed {
+				// nothing may ever reach the upstream: a connection still waiting in its accept queue gets a moment
+				if c.lane.up.waitFor(c.from, 100*time.Millisecond, func(cs []*x04UpConn) bool { return len(cs) > 0 && len(cs[0].buf) > 0 }) {
+					return mism("upstream-unexpected", "fabio closed the connection, the upstream nevertheless received data")
+				}
+			}
 			return nil
 		}
 		return mism("upstream-missing", "no upstream connection although the upstream should have %q (marker %q, eof %v)", e.data, e.marker, s.UpEOF)
@@ -1745,7 +1751,8 @@ func TestVerifX04Probe(t *testing.T) {
 		r.close()
 		w.pools[lane.key] <- lane
 	}
-	if st := stall.Stop(); st > 100*time.Millisecond {
+	// the timed probes compare 0.25-0.3 s against 1-1.8 s: only a stall of that order can spoil them
+	if st := stall.Stop(); st > 600*time.Millisecond {
 		void = fmt.Sprintf("the process stalled for %v during the probes", st)
 	}
 	os.Stdout = w.stdout
@@ -1835,9 +1842,19 @@ func (w *x04World) raceOne(rng *mrand.Rand, n int) ([]x04RaceEv, string) {
 	if lane.up != nil {
 		c.pump.waitEnd(5 * time.Second)
 		var got *x04UpConn
-		lane.up.waitFor(c.from, 2*time.Second, func(cs []*x04UpConn) bool {
+		// fabio closes the upstream's connection before the client's; one that is still in the accept queue of
+		// the upstream when the client sees the end needs a moment to show up
+		seenEnd := time.Time{}
+		lane.up.waitFor(c.from, 3*time.Second, func(cs []*x04UpConn) bool {
 			if len(cs) == 0 {
-				return c.pump.ended()
+				if !c.pump.ended() {
+					return false
+				}
+				if seenEnd.IsZero() {
+					seenEnd = time.Now()
+					time.AfterFunc(1010*time.Millisecond, func() { lane.up.mu.Lock(); lane.up.cond.Broadcast(); lane.up.mu.Unlock() })
+				}
+				return time.Since(seenEnd) > time.Second
 			}
 			if cs[0].eof {
 				cp := *cs[0]
